@@ -1,7 +1,9 @@
 """C41 -- fetch_table queries return exactly the matching rows (engine.py Engine.fetch_table)."""
+import copy
 import logging
 
 from harness import core
+from harness.pyval import enc, Unencodable, strict_eq, to_json, from_json
 
 ID = 'C41'
 TITLE = 'fetch_table queries return exactly the matching rows'
@@ -103,74 +105,18 @@ def gen_doc(rng):
 
 def build_doc(doc):
   e = new_engine()
-  e.apply_user_actions([ua('AddTable', 'T', COLS)])
+  e.apply_user_actions([ua('AddTable', 'T', copy.deepcopy(COLS))])   # AddTable mutates its argument
   if doc['n']:
-    e.apply_user_actions([ua('BulkAddRecord', 'T', [None] * doc['n'], doc['data'])])
+    e.apply_user_actions([ua('BulkAddRecord', 'T', [None] * doc['n'], copy.deepcopy(doc['data']))])
   if doc['remove']:
     e.apply_user_actions([ua('BulkRemoveRecord', 'T', doc['remove'])])
   if doc.get('n2'):
-    e.apply_user_actions([ua('BulkAddRecord', 'T', [None] * doc['n2'], doc['data2'])])
+    e.apply_user_actions([ua('BulkAddRecord', 'T', [None] * doc['n2'], copy.deepcopy(doc['data2']))])
   return e
 
 
 # ---------------------------------------------------------------------------------------------
 # JSON form of requested values (for replay files) and Coq form of values
-
-def to_json(v):
-  if isinstance(v, list):
-    return {'list': [to_json(x) for x in v]}
-  if isinstance(v, tuple):
-    return {'tuple': [to_json(x) for x in v]}
-  if isinstance(v, dict):
-    return {'dict': [[k, to_json(x)] for k, x in v.items()]}
-  return v
-
-
-def from_json(j):
-  if isinstance(j, dict):
-    if 'list' in j:
-      return [from_json(x) for x in j['list']]
-    if 'tuple' in j:
-      return tuple(from_json(x) for x in j['tuple'])
-    return {k: from_json(x) for k, x in j['dict']}
-  return j
-
-
-class Unencodable(Exception):
-  pass
-
-
-TOKENS = {}
-
-
-def enc(v):
-  """Python value -> Coq term of type PyVal.val."""
-  if v is None:
-    return 'VNone'
-  if isinstance(v, bool):
-    return '(VBool %s)' % core.boollit(v)
-  if isinstance(v, int):
-    return '(VInt %s)' % core.zlit(v)
-  if isinstance(v, float):
-    if v != v:
-      raise Unencodable('NaN')
-    if abs(v) < 2 ** 40 and v * 2 == int(v * 2):
-      return '(VFloat %s)' % core.zlit(int(v * 2))
-  if isinstance(v, str):
-    return '(VStr %s)' % core.strlit(v)
-  if type(v) is list:
-    return '(VList %s)' % core.coq_list([enc(x) for x in v])
-  if type(v) is tuple:
-    return '(VTuple %s)' % core.coq_list([enc(x) for x in v])
-  try:
-    hash(v)
-    h = True
-  except TypeError:
-    h = False
-  key = (type(v).__name__, repr(v))
-  tok = TOKENS.setdefault(key, len(TOKENS))
-  return '(VOpaque %s %s)' % (core.boollit(h), core.zlit(tok))
-
 
 def enc_table(t):
   size = t._id_column.size()
@@ -259,17 +205,6 @@ def run_impl(e, target, formulas, private, query):
 
 # ---------------------------------------------------------------------------------------------
 # the property's own oracle on the implementation
-
-def strict_eq(a, b):
-  """same object, or same type and equal (recursively for lists/tuples): distinguishes 1, 1.0 and True"""
-  if a is b:
-    return True
-  if type(a) is not type(b):
-    return False
-  if isinstance(a, (list, tuple)):
-    return len(a) == len(b) and all(strict_eq(x, y) for x, y in zip(a, b))
-  return a == b
-
 
 def oracle(e, target, formulas, private, query, res):
   t = e.tables[target]
@@ -425,7 +360,7 @@ def search(ctx):
   # the oracle runs on every case inside correspond (same engine objects); here: exhaustive small scope
   # in the thorough tier and a dedicated stream for the equality corner cases
   e = new_engine()
-  e.apply_user_actions([ua('AddTable', 'T', COLS)])
+  e.apply_user_actions([ua('AddTable', 'T', copy.deepcopy(COLS))])   # AddTable mutates its argument
   vals = [None, 0, 1, True, False, 1.0, 0.0, 1.5, '', 'a', '1', ['L', 'a'], ['L', 1], ['L'], ['O', {'a': 1}]]
   e.apply_user_actions([ua('BulkAddRecord', 'T', [None] * len(vals),
                            {'A': vals, 'B': ['a', 'b'] * 7 + ['a'], 'N': [1, 2, 1.5] * 5})])
@@ -442,10 +377,14 @@ def search(ctx):
         query = {cid: vs}
         w = {'doc': doc, 'target': 'T', 'formulas': True, 'private': False,
              'query': [[cid, [to_json(v) for v in vs]]]}
-        res = run_impl(e, 'T', True, False, query)
-        desc = oracle(e, 'T', True, False, query, res)
         n += 1
         ctx.count(('pairs', cid, w['query']), nontrivial=True, kind='equality-corner-stream')
+        try:
+          res = run_impl(e, 'T', True, False, query)
+        except Exception as ex:      # pylint: disable=broad-except
+          ctx.violation('exception', 'fetch_table raised %r' % (ex,), w)
+          continue
+        desc = oracle(e, 'T', True, False, query, res)
         if desc:
           ctx.violation('oracle', desc, w)
   ctx.log('search: %d equality-corner queries' % n)
